@@ -214,13 +214,13 @@ Definition int_text_ok (t : bytes) : bool :=
 Definition int_magnitude (t : bytes) : N :=
   let '(base, body) := int_prefix t in
   match radix_value base 0 (remove_us body) with Some v => v | None => 0%N end.
-(* The macro's integers are i32 (inference fallback of an unsuffixed literal).  A positive
-   literal above i32::MAX is a compile error; a NEGATIVE one below i32::MIN compiles and wraps:
-   Props/C19.v `C19_negative_wrap_refuted`. *)
+(* An unsigned or `+` integer is an i32 in the macro (inference fallback of an unsuffixed literal): above
+   i32::MAX it is a compile error.  A NEGATIVE integer is typed i64 (`macros::number`): everything TOML
+   allows, down to i64::MIN. *)
 Definition int_ok (sg : sign) (t : bytes) : bool :=
   int_text_ok t
   && match sg with
-     | SgMinus => (int_magnitude t <=? 2147483648)%N
+     | SgMinus => (int_magnitude t <=? 9223372036854775808)%N
      | _ => (int_magnitude t <=? 2147483647)%N
      end.
 
